@@ -100,16 +100,20 @@ class DSL:
             if len(versions) > 1:
                 for type_ in versions:
                     instantiated_P = Primitive(P.primitive, type=type_)
-                    self.list_primitives.append(instantiated_P)
+                    if instantiated_P not in self.list_primitives:
+                        self.list_primitives.append(instantiated_P)
                 self.list_primitives.remove(P)
 
         # Now remove all UNIT as parameters from signatures
-        for i, P in enumerate(self.list_primitives):
+        without_unit: TList[Primitive] = []
+        for P in self.list_primitives:
             if any(arg == UNIT for arg in P.type.arguments()):
                 # build a new primitive: the hash of a Primitive is cached at construction
-                self.list_primitives[i] = Primitive(
-                    P.primitive, P.type.without_unit_arguments()
-                )
+                P = Primitive(P.primitive, P.type.without_unit_arguments())
+            # two alternatives may coincide once their unit arguments are gone
+            if P not in without_unit:
+                without_unit.append(P)
+        self.list_primitives = without_unit
 
     def __eq__(self, o: object) -> bool:
         return isinstance(o, DSL) and set(self.list_primitives) == set(
